@@ -259,7 +259,9 @@ def plan(pid, tier):
     profs = PROFILE[pid]
     if tier == "quick":
         return [(profs[0], 2, 120, 40), (profs[0], 3, 80, 40), (profs[0], 4, 60, 50), (profs[1], 2, 80, 40),
-                (profs[1], 3, 60, 60), (profs[0], 2, 60, 80)]
+                (profs[1], 3, 60, 60), (profs[0], 2, 60, 80),
+                (profs[0], 2, 120, 40), (profs[0], 3, 80, 50), (profs[1], 4, 60, 50), (profs[1], 2, 100, 40),
+                (profs[0], 3, 60, 70), (profs[1], 2, 50, 90)]
     out = []
     for rep in range(8):
         for spe in (2, 3, 4):
@@ -305,7 +307,7 @@ def run_check(pid, tier, seed, replay=None):
         # slots, finality and prunes) fed to the fork choice the way a client does (runner/fcchain.py)
         try:
             import fcchain
-            real = fcchain.real_chain_traces(seed, tier, n=4 if tier == "quick" else None)
+            real = fcchain.real_chain_traces(seed, tier)
             run.counts["real-chain-histories"] = len(real)
             jobs += list(real)
         except ImportError:
@@ -332,13 +334,16 @@ def run_check(pid, tier, seed, replay=None):
         path, spe = job
         events = lib.read_ndjson(path)
         res = validate_file(path, spe, findings)
+        lib.log("[%5.0fs] validated %s: %d events in %.0fs" % (lib.elapsed(), os.path.basename(path), len(events), res.wall))
         return path, events, res
     for path, events, res in lib.parallel_map(val, jobs, workers=6):
         summarize_trace(run, events)
         process_result(run, path, events, res, findings)
 
+    lib.log("[%5.0fs] traces validated" % lib.elapsed())
     if not replay:
         mc_thread.join()
+        lib.log("[%5.0fs] model checking done" % lib.elapsed())
         if "err" in mc_holder:
             raise mc_holder["err"]
         mres = mc_holder["res"]
